@@ -298,7 +298,8 @@ func genSites(r *Rand) Input {
 			exited = append(exited, d.V)
 		}
 	}
-	if r.Chance(1, 4) {
+	if r.Chance(1, 4) || (family >= 5 && r.Bool()) {
+		// start-up and the fork handler also set up the running period: a member of its committee
 		for _, d := range d1 {
 			if contains(accts, d.V) && !contains(exited, d.V) && r.Bool() {
 				exited = append(exited, d.V)
@@ -391,7 +392,11 @@ func genSites(r *Rand) Input {
 		tag("site:startup")
 		ep := q*p.EPP + uint64(r.Intn(int(p.EPP)))
 		if r.Bool() && p.EPP >= 5 {
-			ep = (q+1)*p.EPP - uint64(r.Range(1, 6))
+			// near the boundary: exactly five epochs before it half of the time
+			ep = (q+1)*p.EPP - 5
+			if r.Bool() {
+				ep = (q+1)*p.EPP - uint64(r.Range(1, 6))
+			}
 		}
 		cur := ep*p.SPE + uint64(r.Intn(int(p.SPE)))
 		in.Hist = append(in.Hist, site("startup", cur, d1, d2))
@@ -407,7 +412,10 @@ func genSites(r *Rand) Input {
 		tag("site:fork-epoch")
 		fe := q*p.EPP + uint64(r.Intn(int(p.EPP)))
 		if r.Bool() && p.EPP >= 5 {
-			fe = (q+1)*p.EPP - uint64(r.Range(1, 6))
+			fe = (q+1)*p.EPP - 5
+			if r.Bool() {
+				fe = (q+1)*p.EPP - uint64(r.Range(1, 6))
+			}
 		}
 		p.Fork = fe
 		in.Par = p
